@@ -459,6 +459,7 @@ def analyze_flush(ctx):
     h = max(hs, key=lambda x: len(loops[x]))
     se = ctx.senv(b)
     n = 0
+    pf = set()  # offset form of the pending text: the local(s) holding where it starts
 
     def pending(gs, last=False):
         """is text known to be pending on this path?  The pending text is an Option<String> (Some = pending) or a
@@ -475,6 +476,13 @@ def analyze_flush(ctx):
             mm = re.match(r"^(!?)eq\(0, len\((?:uninit\((\d+)\)|String::new\(\))\)\)$", g)
             if mm and (mm.group(2) is None or strip_lt(b.locals[int(mm.group(2))]["ty"]) == "std::string::String"):
                 found.append(mm.group(1) == "!")
+                continue
+            # the pending text kept as the offset where it starts: pending iff that offset lies below the scanned
+            # one (below the length, when the scan has ended)
+            mm = re.match(r"^(!?)lt\(uninit\((\d+)\), (?:next\(uninit\(\d+\)\) as Some\.0|len\(a2\))\)$", g)
+            if mm and b.locals[int(mm.group(2))]["ty"] == "usize":
+                found.append(mm.group(1) == "")
+                pf.add(int(mm.group(2)))
         if not found:
             return None
         return found[-1] if last else found[0]
@@ -495,6 +503,9 @@ def analyze_flush(ctx):
         if nx[0].endswith("=None"):
             if pending(gs, last=True):
                 _rec(d, "tail-flushed", any(c[0] == "characters" for c in cs), "text still pending when the scan ends is not handed to the handler", loc)
+                if pf:
+                    want = ["Iterator::collect(a2[RangeFrom::RangeFrom{start: uninit(%d)}])" % x for x in pf]
+                    _rec(d, "tail-flushed", [c[1][1] for c in cs if c[0] == "characters"] == want, "what is handed over when the scan ends must be the match from the pending offset to its end; found %s" % [c[1][1:] for c in cs if c[0] == "characters"], loc)
             else:
                 _rec(d, "tail-empty", not any(c[0] == "characters" for c in cs), "", loc)
             continue
@@ -508,6 +519,24 @@ def analyze_flush(ctx):
                 ev = [i for i, x in enumerate(names) if x in ("on_group_start", "on_group_end")]
                 ch = [i for i, x in enumerate(names) if x == "characters"]
                 _rec(d, "pending-text-before-events", bool(ch) and (not ev or ch[0] < ev[0]), "pending text must be handed to the handler before the events of the offset are dispatched", loc)
+        if pf:
+            # offset form: the pending text is current[from..offset]; it is handed over whole when events are due and
+            # the pending offset moves to exactly the scanned offset then, and only then - so every character of the
+            # match lies in exactly one piece
+            env = getattr(p, "env", {}) or {}
+            moved = {x: strip_ver(render(env[x])) for x in pf if x in env}
+            if found:
+                if pending(gs):
+                    want = ["Iterator::collect(a2[Range::Range{start: uninit(%d), end: %s}])" % (x, I) for x in pf]
+                    _rec(d, "pending-text-before-events", [c[1][1] for c in cs if c[0] == "characters"] == want, "the text handed over before the events of an offset must be the match from the pending offset to the scanned one; found %s" % [c[1][1:] for c in cs if c[0] == "characters"], loc)
+                _rec(d, "every-character-buffered", len(pf) == 1 and list(moved.values()) == [I], "after the events of an offset the pending text must start at exactly that offset; it starts at %s" % moved, loc)
+            else:
+                _rec(d, "every-character-buffered", not moved and not any(c[0] == "characters" for c in cs), "an offset without events must leave the pending text alone; found %s" % moved, loc)
+            inits = [strip_ver(show(se.ev.rvalue(st["rv"], se.local_value))) for bi, blk in enumerate(b.blocks) if bi not in loops[h] and not blk.get("cleanup") for st in blk["stmts"] if st["k"] == "assign" and not st["place"]["p"] and st["place"]["l"] in pf]
+            _rec(d, "nothing-buffered-at-end", inits == ["0"], "the pending text must start at offset 0 when the scan begins; it starts at %s" % inits, loc)
+            if not p.end.startswith("loop:%d" % h) and p.end.startswith("loop"):
+                p.skip = True
+            continue
         below = ("lt(%s, len(a2))" % I) in gs
         if below:
             app = [c for c in cs if (c[0] == "push" and c[1][1:] == ["a2[%s]" % I]) or (c[0] == "to_string" and c[1] == ["a2[%s]" % I])]
